@@ -74,7 +74,8 @@ def build(name, sources, flags=(), libs=(), cxx=None, include_repo=True, timeout
     srcs = [s if os.path.isabs(s) else os.path.join(HARNESS, s) for s in sources]
     hfiles = [p for p in glob.glob(os.path.join(HARNESS, "**", "*"), recursive=True) if os.path.isfile(p)]
     key = _hash_files(hfiles, extra=(include_hash() if include_repo else "") + repr((flags, libs, cxx, srcs)))
-    bindir = os.path.join(CACHE, "bin")
+    # runs against a mutated scratch copy keep their binaries with the scratch copy (no interference with the real tree's cache)
+    bindir = os.path.join(os.environ["VERIF_OUT"], "bin") if os.environ.get("VERIF_OUT") else os.path.join(CACHE, "bin")
     os.makedirs(bindir, exist_ok=True)
     exe = os.path.join(bindir, "%s-%s" % (name, key))
     if os.path.exists(exe):
@@ -111,7 +112,7 @@ def run(cmd, timeout=600, env=None, cwd=None, ok_codes=(0,), stdin=None):
     try:
         # drivers run under an address-space limit: a library that reads garbage sizes must fail fast (bad_alloc ->
         # Abort event), not swallow the machine
-        limit = str(cmd[0]).startswith(os.path.join(CACHE, "bin"))
+        limit = os.sep + "bin" + os.sep + "drv_" in str(cmd[0])
         r = subprocess.run(cmd, stdout=subprocess.PIPE, stderr=subprocess.STDOUT, text=True, timeout=timeout,
                            env=e, cwd=cwd, input=stdin, preexec_fn=_limit_memory if limit else None)
     except subprocess.TimeoutExpired:
